@@ -62,6 +62,9 @@ KeepTwoPasses(h) == CountOp(h, "hot_reload") >= 2 /\ CountOp(h, "notify") >= 2 /
 
 (* an asset is removed and loaded again (registered twice with the reloader), then a pass runs *)
 KeepReReg(h) == CountOp(h, "remove") >= 1 /\ CountOp(h, "load") >= 2 /\ CountOp(h, "notify") >= 1 /\ h[2].step.op = "load" /\ h[Len(h)].step.op = "hot_reload"
+(* a value is inserted under a key the reloader already knows (loaded, then removed or cleared), then a pass runs *)
+KeepGoi(h) == CountOp(h, "goi") >= 1 /\ CountOp(h, "notify") >= 1 /\ CountOp(h, "remove") + CountOp(h, "clear") >= 1
+              /\ h[2].step.op = "load" /\ h[Len(h)].step.op = "hot_reload"
 (* some asset was actually reloaded *)
 KeepReloaded(h) == \E i \in 2..Len(h) : \E e \in h[i].snap : e.rid > 0
 
